@@ -675,8 +675,58 @@ def r20_8(ctx, prog, crate):
         ctx.check(got == names, "R20.8", [enum.rsplit("::", 1)[-1], "ALL-in-declaration-order"], "%s::ALL = %s, declared %s" % (enum, got, names), cb.where(0))
 
 
+def r20_9(ctx, prog, crate):
+    """Column predicates the row writers branch on: is_time_stat() is true for exactly the columns get_stat() has a
+    statistic for (the width of those columns is computed from the statistics), and is_first()/is_last() name the first
+    and last element of TreeColumn::ALL (whose order R20.8 ties to the declaration)."""
+    from rules.common import variant_table
+    T = "tree_painter::TreeColumn::"
+    adt = prog.adt("tree_painter::TreeColumn", crate)
+    bs = {n: prog.body(T + n, crate) for n in ("is_time_stat", "get_stat", "is_first", "is_last")}
+    if not ctx.anchor("R20.9", "TreeColumn predicates", sum(1 for b in bs.values() if b) + (1 if adt else 0), 5):
+        return
+    for b in bs.values():
+        ctx.saw(b)
+    names = [v["name"] for v in adt["variants"]]
+    ts, gs = variant_table(prog, bs["is_time_stat"], crate), variant_table(prog, bs["get_stat"], crate)
+    if ctx.check(ts is not None and gs is not None, "R20.9", ["is_time_stat", "decided-by-variant"], "cannot read is_time_stat/get_stat as functions of the variant", bs["is_time_stat"].where(0)):
+        yes = sorted(v for v, e in ts.items() if e == ("int", 1))
+        odd = sorted(v for v, e in ts.items() if e not in (("int", 1), ("int", 0)))
+        some = sorted(v for v, e in gs.items() if e[0] == "adt" and e[2] == "Some")
+        ctx.check(not odd and yes == some, "R20.9", ["is_time_stat", "exactly-the-columns-with-a-statistic"],
+                  "is_time_stat() is true for %s but get_stat() has a statistic for %s" % (yes, some), bs["is_time_stat"].where(0))
+    for fn, want_idx, (off, from_end) in (("is_first", 0, (0, False)), ("is_last", len(names) - 1, (1, True))):
+        b = bs[fn]
+        t = variant_table(prog, b, crate)
+        if t is not None and all(e in (("int", 1), ("int", 0)) for e in t.values()):
+            yes = sorted(v for v, e in t.items() if e == ("int", 1))
+            ok, desc = yes == [names[want_idx]] and all(e in (("int", 1), ("int", 0)) for e in t.values()), "true for %s" % yes
+        else:
+            # `let [first, ..] = Self::ALL; self == first`
+            eqs = [c for c in b.live_calls()]
+            picks = []
+            for bi, si, s in b.stmts():
+                if s["k"] == "assign" and s["rv"]["k"] == "use" and s["rv"]["o"]["k"] in ("copy", "move"):
+                    for pr in s["rv"]["o"]["p"]["proj"]:
+                        if pr["k"] == "cindex":
+                            src = {z.label() for z in b.prov.local_src(s["rv"]["o"]["p"]["l"])}
+                            idx = pr["o"] if not pr["from_end"] else len(names) - pr["o"]
+                            picks.append((idx, src, s["rv"]["o"]["p"]["l"], s["p"]["l"]))
+            ok = len(eqs) == 1 and eqs[0].callee.endswith("PartialEq>::eq") and len(picks) == 1 and picks[0][0] == want_idx and \
+                picks[0][1] == {"const:tree_painter::TreeColumn::ALL"} and eqs[0].dest["l"] == 0 and not eqs[0].dest["proj"]
+            if ok:
+                # the two operands are self and the picked element
+                ops = [direct_place(b, a) for a in eqs[0].args]
+                ls = sorted(d[1] for d in ops if d and d[0] == "place")
+                ok = len(ls) == 2 and ls[0] == 1 and ls[1] in (picks[0][2], picks[0][3])
+            desc = "not `self == %s element of Self::ALL`" % ("first" if not from_end else "last")
+        ctx.check(ok, "R20.9", [fn, "names-the-%s-column" % ("first" if not from_end else "last")],
+                  "TreeColumn::%s is %s; expected true exactly for %s, the %s column of TreeColumn::ALL" % (fn, desc, names[want_idx], "first" if not from_end else "last"), b.where(0))
+
+
 def run(ctx, prog, crate):
     r20_8(ctx, prog, crate)
+    r20_9(ctx, prog, crate)
     r20_7(ctx, prog, crate)
     r20_1(ctx, prog, crate)
     r20_2(ctx, prog, crate)
